@@ -81,10 +81,50 @@ def decidedViaCtrlR (s : State) (h : Nat) (m : Msg) (ok : Bool) : State × Out :
   ({ s with c := p.1, s := p.2.1, r := syncRun s.r p.1 },
     match p.2.2 with | .err => .derr | .new => .dnew | .dup => .ddup)
 
+/-- the store-failure variant: the first Save* call fails (nothing written); the runner's own save goes through repair 1 -/
+def decidedViaRunnerSFR (s : State) (h : Nat) (m : Msg) (ok : Bool) : State × Out :=
+  let p := processMsgR s.q s.c s.s h m ok
+  let consumed := ok && decide (s.q ≤ m.signers.length) &&
+    ((decidedBranchR s.c s.s h m).2 &&
+      match find (decidedBranchR s.c s.s h m).1 h with
+      | some i => s.c.full || decide (s.c.height ≤ i.height)
+      | none => false)
+  let c2 := if s.q ≤ m.signers.length then compactAt p.1 h else p.1
+  let r2 := syncRun s.r c2
+  let saves := runnerSaves s.r h p.2.2
+  ({ s with c := c2,
+            s := if saves && consumed then saveFoundR c2 s.s h m else s.s,
+            r := if saves then { r2 with hds := h } else r2 },
+   runnerOut s.r h p.2.2)
+
+def decidedViaCtrlSFR (s : State) (h : Nat) (m : Msg) (ok : Bool) : State × Out :=
+  let p := processMsgR s.q s.c s.s h m ok
+  ({ s with c := p.1, r := syncRun s.r p.1 },
+    match p.2.2 with | .err => .derr | .new => .dnew | .dup => .ddup)
+
+def commitsStepR (s : State) (root : Nat) (valOk : Bool) : State × Out :=
+  match s.r.duty, s.r.running with
+  | some _, some rh =>
+    match find s.c.insts rh with
+    | some i =>
+      if !i.decided && i.commits.isEmpty && !i.stopped && i.round == Gen.heights_FirstRound then
+        let i' : Inst := { i with decided := true, commits := singles s.q root }
+        let c' : Ctrl := { s.c with insts := replaceInst i' s.c.insts }
+        let cert : Msg := ⟨Gen.heights_FirstRound, root, List.range' 1 s.q⟩
+        ({ s with c := c', s := saveFoundR c' s.s rh cert, r := { syncRun s.r c' with hds := rh } },
+          if valOk then .cok else .cerr)
+      else (s, .na)
+    | none => (s, .na)
+  | _, _ => (s, .na)
+
 def stepR (s : State) : Op → State × Out
   | .decided h round root signers ok viaRunner =>
     if viaRunner then decidedViaRunnerR s h ⟨round, root, signers⟩ ok
     else decidedViaCtrlR s h ⟨round, root, signers⟩ ok
+  | .decidedSF h round root signers ok viaRunner =>
+    if viaRunner then decidedViaRunnerSFR s h ⟨round, root, signers⟩ ok
+    else decidedViaCtrlSFR s h ⟨round, root, signers⟩ ok
+  | .commits root valOk => commitsStepR s root valOk
   | op => step s op
 
 def runR (s : State) (ops : List Op) : State := ops.foldl (fun s o => (stepR s o).1) s
